@@ -425,6 +425,15 @@ class Runner(object):
                 return res if isinstance(op, ast.In) else not res
             return None
         v = self.ev(t, env, fi, cls)
+        if isinstance(t, (ast.Attribute, ast.Name)) and "none" in v.kinds and len(v.kinds) > 1 and "any" not in v.kinds:
+            # `if x:` on a value that may be None: on the true outcome it is not None (a false outcome says nothing: None, "" , 0)
+            res = self.choose(2) == 0
+            if res:
+                nv = V(v.kinds - {"none"}, derived=v.derived, tag=v.tag)
+                env["@" + _src(t)] = nv
+                if isinstance(t, ast.Name):
+                    env[t.id] = nv
+            return res
         return self.truth(v)
 
     def truth(self, v):
